@@ -458,6 +458,23 @@ class Expander:
                 self.consts[cname] = mm.group(1)
                 lines[i] = 'pub open spec fn %s() -> int { %s }   // read from %s' % (cname, mm.group(1), kv['file'])
                 continue
+            if st.startswith('//@fields'):
+                # //@fields file=<path> name=<Struct> expect="a,b,c" : a hand re-declared struct (rule E2) must list exactly
+                # the fields of the real one - otherwise the unit is UNDECIDED
+                kv = parse_kv(st[len('//@fields'):])
+                src_ = self.src(kv['file'])
+                try:
+                    hs, bo, bc = src_.find_item('struct', kv['name'])
+                except ScanError as e:
+                    raise AnchorLost(str(e))
+                body = strip_attrs(src_.text[bo + 1:bc])
+                names = re.findall(r'(?m)^\s*(?:pub(?:\([a-z]+\))?\s+)?(\w+)\s*:', body)
+                want = [x.strip() for x in kv['expect'].split(',') if x.strip()]
+                if names != want:
+                    raise AnchorLost('struct %s in %s has fields %s, the stand-in declares %s' % (kv['name'], kv['file'], names, want))
+                self.items.append({'file': kv['file'], 'kind': 'struct-fields-checked', 'name': kv['name'], 'lines': [src_.line_of(hs), src_.line_of(bc)]})
+                lines[i] = '// fields of %s checked against %s: %s' % (kv['name'], kv['file'], ', '.join(names))
+                continue
             if st.startswith('//@define'):
                 k, v = st[len('//@define'):].strip().split(' ', 1)
                 self.defines[k] = v.strip()
